@@ -128,3 +128,76 @@ def path_from(segs_pts, closed):
     p = BezierPath.fromSegments([mkseg(s) for s in segs_pts])
     p.closed = closed
     return p
+
+
+# ----------------------------------------------------------------------------- wire format / exact roots
+
+KTOK = {2: "L", 3: "Q", 4: "C"}
+
+
+def seg_tokens(pts):
+    from ..drive import rat
+    return KTOK[len(pts)] + " " + " ".join(rat(c) for p in pts for c in p)
+
+
+def parse_segs(tokens):
+    """inverse of the driver's showSegs: list of lists of (Fraction, Fraction)"""
+    out = []
+    i = 0
+    n = {"L": 2, "Q": 3, "C": 4}
+    while i < len(tokens):
+        k = n[tokens[i]]
+        vals = [F(x) for x in tokens[i + 1:i + 1 + 2 * k]]
+        out.append([(vals[2 * j], vals[2 * j + 1]) for j in range(k)])
+        i += 1 + 2 * k
+    return out
+
+
+def frac_sqrt(x, digits=40):
+    n, d = x.numerator, x.denominator
+    rn, rd = math.isqrt(n), math.isqrt(d)
+    if rn * rn == n and rd * rd == d:
+        return F(rn, rd)
+    s = 10 ** digits
+    return F(math.isqrt(n * d * s * s), d * s)
+
+
+def poly_roots_deg2(c0, c1, c2):
+    """Real roots of c0 + c1 t + c2 t^2 (Fractions) as [(value approx to 1e-40, simple?)]; exact classification."""
+    c0, c1, c2 = F(c0), F(c1), F(c2)
+    if c2 == 0:
+        if c1 == 0:
+            return []
+        return [(-c0 / c1, True)]
+    D = c1 * c1 - 4 * c2 * c0
+    if D < 0:
+        return []
+    if D == 0:
+        return [(-c1 / (2 * c2), False)]
+    s = frac_sqrt(D)
+    return sorted([((-c1 - s) / (2 * c2), True), ((-c1 + s) / (2 * c2), True)])
+
+
+def deriv_roots(coords):
+    """roots of the derivative of the Bernstein polynomial with these control coordinates (degree <= 3)"""
+    d = power_basis(dcoeffs(coords))
+    d = d + [F(0)] * (3 - len(d))
+    return poly_roots_deg2(d[0], d[1], d[2]), d
+
+
+def casteljau_split(pts, t):
+    """exact de Casteljau: pts list of (Fraction, Fraction)"""
+    t = F(t)
+    cur = [(F(x), F(y)) for x, y in pts]
+    left, right = [cur[0]], [cur[-1]]
+    while len(cur) > 1:
+        cur = [((1 - t) * a[0] + t * b[0], (1 - t) * a[1] + t * b[1]) for a, b in zip(cur, cur[1:])]
+        left.append(cur[0])
+        right.append(cur[-1])
+    return left, right[::-1]
+
+
+def extent(pts):
+    xs = [p[0] for p in pts]
+    ys = [p[1] for p in pts]
+    return max(max(xs) - min(xs), max(ys) - min(ys))
